@@ -16,6 +16,9 @@ def image(pt, w, h, rng, alpha_mode):
     info = rz.PT[pt]
     nc = info["nc"]
     mx = info["max"]
+    if alpha_mode in ("zero_some", "any") and rng.random() < 0.4:
+        # runs of transparent black / saturated / opaque / transparent-coloured / mixed pixels (whole vectors alike)
+        return rz.runs_pixels(pt, w * h, rng)
     out = []
     for p in range(w * h):
         if info["comp"] == "f32":
